@@ -504,3 +504,165 @@ func (c *Ctx) withHelpers(fn *ssa.Function, depth int) []*ssa.Function {
 	add(fn, depth)
 	return out
 }
+
+// funcValue: the function a value denotes when that is evident: a function, a closure, a bound method (unwrapped to
+// the method), or a load of a local variable that was assigned such a value exactly once.
+func funcValue(v ssa.Value) *ssa.Function {
+	switch x := v.(type) {
+	case *ssa.Function:
+		return ir.Unwrap(x)
+	case *ssa.MakeClosure:
+		if f, ok := x.Fn.(*ssa.Function); ok {
+			return ir.Unwrap(f)
+		}
+	case *ssa.UnOp:
+		if x.Op != token.MUL {
+			return nil
+		}
+		cell := x.X
+		if fv, ok := cell.(*ssa.FreeVar); ok {
+			cell = cellOfFreeVar(fv)
+		}
+		al, ok := cell.(*ssa.Alloc)
+		if !ok || al.Referrers() == nil {
+			return nil
+		}
+		var only *ssa.Function
+		for _, ref := range *al.Referrers() {
+			if st, ok := ref.(*ssa.Store); ok && st.Addr == ssa.Value(al) {
+				f := funcValue(st.Val)
+				if f == nil || (only != nil && only != f) {
+					return nil
+				}
+				only = f
+			}
+		}
+		return only
+	case *ssa.ChangeType:
+		return funcValue(x.X)
+	}
+	return nil
+}
+
+// calleeOf: the function a call invokes when that is evident (static callee, closure, variable holding a closure).
+func calleeOf(call *ssa.CallCommon) *ssa.Function {
+	if call.IsInvoke() {
+		return nil
+	}
+	if f := call.StaticCallee(); f != nil {
+		return ir.Unwrap(f)
+	}
+	return funcValue(call.Value)
+}
+
+// callsNamed: fn (with closures) calls a function of that name, directly or through module functions to the depth.
+func (c *Ctx) callsNamed(fn *ssa.Function, name string, depth int) bool {
+	seen := map[*ssa.Function]bool{}
+	var walk func(f *ssa.Function, d int) bool
+	walk = func(f *ssa.Function, d int) bool {
+		if f == nil || seen[f] || f.Blocks == nil {
+			return false
+		}
+		seen[f] = true
+		for _, b := range f.Blocks {
+			for _, in := range b.Instrs {
+				ci, ok := in.(ssa.CallInstruction)
+				if !ok {
+					continue
+				}
+				cal := calleeOf(ci.Common())
+				if cal == nil {
+					continue
+				}
+				if cal.Name() == name {
+					return true
+				}
+				if d > 0 && c.P.InModule(cal) && walk(cal, d-1) {
+					return true
+				}
+			}
+		}
+		for _, an := range f.AnonFuncs {
+			if walk(an, d) {
+				return true
+			}
+		}
+		return false
+	}
+	return walk(fn, depth)
+}
+
+// withPrivateHelpers: fn, its closures, and the functions of the same package that only this family calls
+// (the shape an "extract function" refactoring produces), to the given depth.
+func (c *Ctx) withPrivateHelpers(fn *ssa.Function, depth int) []*ssa.Function {
+	fam := map[*ssa.Function]bool{}
+	var out []*ssa.Function
+	var addClosures func(f *ssa.Function)
+	addClosures = func(f *ssa.Function) {
+		if fam[f] {
+			return
+		}
+		fam[f] = true
+		out = append(out, f)
+		for _, an := range f.AnonFuncs {
+			addClosures(an)
+		}
+	}
+	addClosures(fn)
+	for d := 0; d < depth; d++ {
+		var cands []*ssa.Function
+		for _, f := range out {
+			for _, b := range f.Blocks {
+				for _, in := range b.Instrs {
+					if ci, ok := in.(ssa.CallInstruction); ok {
+						if cal := ci.Common().StaticCallee(); cal != nil && !fam[cal] && cal.Blocks != nil && cal.Parent() == nil && cal.Pkg != nil && cal.Pkg == ir.Outer(fn).Pkg {
+							cands = append(cands, cal)
+						}
+					}
+				}
+			}
+		}
+		for _, cal := range cands {
+			private := true
+			for _, e := range c.P.Callers(cal) {
+				if !fam[ir.Outer(e.Caller.Func)] && !fam[e.Caller.Func] {
+					private = false
+				}
+			}
+			if private {
+				addClosures(cal)
+			}
+		}
+	}
+	return out
+}
+
+// familyKey: if fn is one of the named functions, a closure of one, or a private helper of one (a function of the same
+// package that only that family calls — what "extract function" produces), the name of that function; else "".
+func (c *Ctx) familyKey(fn *ssa.Function, keys []string) string {
+	ok := ir.OuterKey(fn)
+	for _, k := range keys {
+		if k == ok {
+			return k
+		}
+	}
+	if c.famMemo == nil {
+		c.famMemo = map[string]map[*ssa.Function]bool{}
+	}
+	for _, k := range keys {
+		fam, done := c.famMemo[k]
+		if !done {
+			fam = map[*ssa.Function]bool{}
+			if root := c.P.Func(k); root != nil {
+				for _, f := range c.withPrivateHelpers(root, 2) {
+					fam[f] = true
+				}
+			}
+			c.famMemo[k] = fam
+		}
+		if fam[fn] || fam[ir.Outer(fn)] {
+			return k
+		}
+	}
+	return ""
+}
